@@ -1817,7 +1817,7 @@ def dask_groupby_agg(
     array, by = _unify_chunks(array, by)
 
     # tokenize here since by has already been hashed if its numpy
-    token = dask.base.tokenize(array, by, agg, expected_groups, axis, method)
+    token = dask.base.tokenize(array, by, agg, expected_groups, axis, method, reindex, engine, sort)
 
     # preprocess the array:
     #   - for argreductions, this zips the index together with the array block
@@ -3197,6 +3197,7 @@ def _finalize_scan(block: ScanState, dtype) -> np.ndarray:
 def dask_groupby_scan(array, by, axes: T_Axes, agg: Scan) -> DaskArray:
     from dask.array import map_blocks
     from dask.array.reductions import cumreduction as scan
+    from dask.base import tokenize
 
     from flox.aggregations import scan_binary_op
 
@@ -3213,7 +3214,7 @@ def dask_groupby_scan(array, by, axes: T_Axes, agg: Scan) -> DaskArray:
         array,
         dtype=array.dtype,
         meta=array._meta,
-        name="groupby-scan-preprocess",
+        name="groupby-scan-preprocess-" + tokenize(by, array),
     )
 
     scan_ = partial(chunk_scan, agg=agg)
